@@ -82,13 +82,13 @@ pub fn class_ref(p: &Pos, m: M, g: u8) -> bool {
 }
 
 /// GEN(K) on FULL: the generator pushes the symbolic target exactly (spec as 0/1) times
-pub fn semilegal_gen_exact<S: Src, const SIDE: u8, const G: u8, const K: u32>(s: &mut S) {
+pub fn semilegal_gen_exact<S: Src, const SIDE: u8, const G: u8, const KP: u32, const KN: u32>(s: &mut S) {
     crate::stubs::draw_hash_pool(s);
     let b = match any_board(s, SIDE) {
         Some(b) => b,
         None => return,
     };
-    vassume!(gen_bound(&b, K));
+    vassume!(gen_bound2(&b, KP, KN));
     let p = pos_of(b.raw());
     let m = any_m(s);
     let mut sink = Sink::new(mv_of(m));
